@@ -355,6 +355,11 @@ class Check:
         self.known_hits = {}      # finding id -> example
         self.rng = random.Random(seed)
         self.known = [k for k in known_findings() if k["property"] == prop and k.get("status") == "known"]
+        for f in (f"{prop}-tie.json", f"{prop}-{seed}.json"):
+            try:
+                os.remove(os.path.join(REPLAY, f))
+            except OSError:
+                pass
 
     def violation(self, what, replay_obj):
         self.violations.append((what, replay_obj))
